@@ -11,12 +11,14 @@ import (
 	"fmt"
 	"io"
 	"os"
+	"reflect"
 	"runtime"
 	"strconv"
 	"strings"
 	"sync"
 	"sync/atomic"
 	"time"
+	"unsafe"
 
 	"github.com/logrange/logrange/api"
 	"github.com/logrange/logrange/pkg/cursor"
@@ -24,6 +26,7 @@ import (
 	"github.com/logrange/logrange/pkg/model/field"
 	"github.com/logrange/logrange/pkg/model/tag"
 	"github.com/logrange/logrange/pkg/partition"
+	"github.com/logrange/range/pkg/records/chunk/chunkfs"
 	"github.com/logrange/range/pkg/records/journal"
 	. "verifharness/common"
 )
@@ -65,11 +68,11 @@ type Step struct {
 }
 
 type Scenario struct {
-	Chunk   int64       `json:"chunk"`
+	Chunk   int64         `json:"chunk"`
 	Sources [][][2]string `json:"sources"` // tag pairs sorted by key
-	Pipes   []PipeDef   `json:"pipes"`
-	Steps   []Step      `json:"steps"`
-	Stream  string      `json:"stream"`
+	Pipes   []PipeDef     `json:"pipes"`
+	Steps   []Step        `json:"steps"`
+	Stream  string        `json:"stream"`
 }
 
 const deadline = 15 * time.Second
@@ -263,33 +266,33 @@ func srcId(srv *Server, tags string) (string, error) {
 // ---------------------------------------------------------------- execution
 
 type pipeRun struct {
-	def       PipeDef
-	created   bool
-	deleted   bool
-	pre       []int      // per source: events in the source when the pipe was created
-	preFl     []int      // per source: how many of them were readable at that moment
-	ops       [][]string // per source: Coq sop terms
-	seen      []bool     // per source: a notification of it reached the pipe
-	raceLost  [][]Ev     // per source: the batch whose notification was inverted (first writer)
-	stale     [][]Ev     // per source: written before the pipe existed, notified after
-	dstAtDel  int        // destination size when the pipe was deleted
-	postDel   bool       // something matching was written after deletion
-	nontriv   bool
+	def      PipeDef
+	created  bool
+	deleted  bool
+	pre      []int      // per source: events in the source when the pipe was created
+	preFl    []int      // per source: how many of them were readable at that moment
+	ops      [][]string // per source: Coq sop terms
+	seen     []bool     // per source: a notification of it reached the pipe
+	raceLost [][]Ev     // per source: the batch whose notification was inverted (first writer)
+	stale    [][]Ev     // per source: written before the pipe existed, notified after
+	dstAtDel int        // destination size when the pipe was deleted
+	postDel  bool       // something matching was written after deletion
+	nontriv  bool
 }
 
 type runner struct {
-	sc      *Scenario
-	srv     *Server
-	dir     string
-	srcIds  []string
-	written [][]Ev // per source, journal order
-	pipes   []*pipeRun
-	viol    *Violation
+	sc         *Scenario
+	srv        *Server
+	dir        string
+	srcIds     []string
+	written    [][]Ev // per source, journal order
+	pipes      []*pipeRun
+	viol       *Violation
 	lastSettle time.Time
-	flushed []int // per source: readable events
-	barName string
-	barSrc  string
-	barTs   int64
+	flushed    []int // per source: readable events
+	barName    string
+	barSrc     string
+	barTs      int64
 }
 
 func (r *runner) fail(class, detail string) {
@@ -329,12 +332,14 @@ func hitCount(src string) int {
 	return hits[src]
 }
 
-// The chunk writers' flush timer is set far beyond the length of a scenario; the harness decides when the
+// The chunk writers' flush timer is set far beyond the time a scenario leaves data unflushed; the harness decides when the
 // data of a wave becomes readable (journal.Sync) and does so only while no pipe worker is between its
 // end-of-data check and its wait (either all workers are parked in WaitNewData, or the writers are still
 // held in front of their WriteEvent). This keeps the reader-side race recorded under C11
 // (reader-eof-count-reread-skips-records) out of the C10 runs, so that any lost event here is a verdict.
-const longFlushMs = 600000
+// (5 s: a chunk writer that was signalled sits in its flush wait for this long even after an explicit Sync and after
+// its server was stopped, holding two descriptors; a scenario never leaves data unflushed for more than milliseconds)
+const longFlushMs = 5000
 
 // barrier: the WriteEvent channel is FIFO and the notificatior handles one event completely before it takes the
 // next, so once the barrier pipe (FROM barrier=b) has seen the notification of a sentinel write, every
@@ -518,6 +523,12 @@ func (r *runner) ensureSrc(s int) error {
 func (r *runner) start() error {
 	var err error
 	r.srv, err = StartServer(ServerOpts{Dir: r.dir, MaxChunkSize: r.sc.Chunk, WriteFlushMs: longFlushMs, NoRPC: true})
+	if err == nil {
+		// chunk writers keep their two files open until they were idle this long, also after the server was stopped
+		// (default 30 s: ~10000 descriptors in a thorough run). The idle timer only runs while nothing is unflushed,
+		// so it never makes data readable behind the harness's back. Read when a journal is created.
+		r.srv.Cfg.JrnlCtrlConfig.WriteIdleSec = 2
+	}
 	return err
 }
 
@@ -596,6 +607,7 @@ func (r *runner) run() error {
 				}
 			}
 			r.srv.Stop()
+			closeFdPool(r.srv)
 			r.srv = nil
 			if err = r.start(); err != nil {
 				return fmt.Errorf("restart failed: %v", err)
@@ -1561,6 +1573,18 @@ func corpus() []*Scenario {
 
 const rule = "end-to-end scenarios on an in-process server: 1-4 source partitions (unique sid tag), 1-3 pipes over four source-condition shapes, waves of 1-3 batches of 1-13 events per source (chunk size 300-2000 bytes in half of the scenarios so that batches straddle roll-overs), pipe creation before/after existing history, a second pipe created mid-history, DELETE PIPE with a control pipe, clean restart, two first writers with inverted notifications (schedule hook), concurrent writers on known sources, worker idle time-out with a write shortly before it; one case per (pipe, source); non-trivial iff the source matches the pipe and either a notification reached the pipe while it already knew the source (worker charged), or a restart/delete/race/re-arm step was taken; distinct by scenario/pipe/source"
 
+// closeFdPool: the journal controller of the range library has no shutdown, so the reader file descriptors pooled by
+// a stopped server stay open for the life of the process (about 25 per scenario; a thorough run starts thousands of
+// servers in one process and ran into EMFILE, on which the library panics with a nil chunk controller). The harness
+// closes the pool of every server it has stopped.
+func closeFdPool(srv *Server) {
+	defer func() { recover() }()
+	v := reflect.ValueOf(srv.JCtrl).Elem().FieldByName("fdPool")
+	if v.IsValid() && v.Kind() == reflect.Ptr && !v.IsNil() {
+		(*chunkfs.FdPool)(unsafe.Pointer(v.Pointer())).Close()
+	}
+}
+
 func runScenario(sc *Scenario) ([]Case, error) {
 	if atomic.LoadInt32(&badScenarios) >= 6 {
 		return nil, nil
@@ -1569,6 +1593,7 @@ func runScenario(sc *Scenario) ([]Case, error) {
 	defer func() {
 		if r.srv != nil {
 			r.srv.Stop()
+			closeFdPool(r.srv)
 		}
 		if r.dir != "" {
 			RemoveAll(r.dir)
